@@ -942,6 +942,239 @@ example :
     cacheLenRun false 2 [[0x3c, 0x7c]] 3 init [Ev.piece [0x61], Ev.piece [0x62, 0x3c], Ev.piece [0x7c, 0x78]] = some 4 ∧
     cacheLenRun false 0 [[0x3c, 0x7c]] 3 init [Ev.piece [0x61]] = none := by decide
 
+/-! ### 5c-5. for the whole run: at a stop string the cache holds the prompt and exactly the tokens streamed in full -/
+
+/-- the number of leading pieces that lie entirely within the first `L` bytes of their concatenation -/
+def wholeTokens : List Bytes → Nat → Nat
+  | [], _ => 0
+  | p :: ps, L => if p.length ≤ L then 1 + wholeTokens ps (L - p.length) else 0
+
+theorem wholeTokens_append (fl ps : List Bytes) (L : Nat) :
+    wholeTokens (fl ++ ps) (fl.flatten.length + L) = fl.length + wholeTokens ps L := by
+  induction fl with
+  | nil => simp
+  | cons p fl ih =>
+    have h1 : p.length ≤ (p :: fl).flatten.length + L := by simp; omega
+    have h2 : (p :: fl).flatten.length + L - p.length = fl.flatten.length + L := by simp; omega
+    simp only [List.cons_append, wholeTokens, h1, if_true, h2, ih, List.length_cons]
+    omega
+
+theorem splitBack_whole : ∀ (pieces : List Bytes) (rem : Bytes), (∀ p ∈ pieces, p ≠ []) →
+    ((splitBack (pieces.map List.length) rem).2 = true → 1 ≤ (splitBack (pieces.map List.length) rem).1.length) ∧
+    (splitBack (pieces.map List.length) rem).1.length - (if (splitBack (pieces.map List.length) rem).2 then 1 else 0) =
+      wholeTokens pieces rem.length := by
+  intro pieces
+  induction pieces with
+  | nil => intro rem _; simp [splitBack, wholeTokens]
+  | cons p ps ih =>
+    intro rem hne
+    have hp : p.length ≠ 0 := fun h0 => hne p (List.mem_cons_self ..) (List.eq_nil_of_length_eq_zero h0)
+    simp only [List.map_cons, splitBack, wholeTokens]
+    by_cases hemp : rem.isEmpty = true
+    · have : rem.length = 0 := by simp [List.isEmpty_iff.mp hemp]
+      simp only [hemp, if_true]
+      have : ¬ p.length ≤ rem.length := by omega
+      simp [this]
+    · simp only [hemp, Bool.false_eq_true, if_false]
+      by_cases hgt : p.length > rem.length
+      · have : ¬ p.length ≤ rem.length := by omega
+        simp [hgt, this]
+      · have hle : p.length ≤ rem.length := by omega
+        obtain ⟨ih1, ih2⟩ := ih (rem.drop p.length) (fun q hq => hne q (List.mem_cons_of_mem _ hq))
+        simp only [hgt, if_false, hle, if_true, List.length_cons]
+        rw [List.length_drop] at ih2
+        refine ⟨fun _ => by omega, ?_⟩
+        rw [← ih2]
+        cases h2 : (splitBack (List.map List.length ps) (List.drop p.length rem)).2 with
+        | false => simp; omega
+        | true => have := ih1 h2; simp; omega
+
+/-- **Cache trimming, for the whole run.**  Every script of non-empty pieces that spells (a prefix of) valid UTF-8, every
+    limit, every list of valid non-empty stops, every prompt length: if a stop string ends the run, the cache length at
+    removal is `promptLen + wholeTokens gen |streamed text|` — the prompt and exactly those generated tokens whose text
+    lies entirely within what was streamed.  (Empty pieces are excluded: an empty piece at the cut belongs to neither
+    side; `cacheKeep_spec` and L1 `cachelen` cover them.) -/
+theorem cache_is_streamed_tokens (pinned : Bool) (limit : Int) (stops : List Bytes) (promptLen : Nat)
+    (hok : StopsOk stops) :
+    ∀ (evs : List Ev) (st : St), Stop.Inv stops st →
+      (∃ fl : List Bytes, st.gen = fl ++ st.pending ∧ fl.flatten = st.outText ∧
+        fl.length + st.pending.length = st.numPredicted) →
+      (∀ q ∈ st.gen, q ≠ []) → (∀ q, Ev.piece q ∈ evs → q ≠ []) →
+      ValidPrefix (st.genText ++ scriptText evs) → ∀ n s,
+      cacheLenRun pinned limit stops promptLen st evs = some n →
+      (run pinned limit stops st evs).cause = some (.stopString s) →
+      n = (promptLen : Int) + wholeTokens (run pinned limit stops st evs).gen
+            (run pinned limit stops st evs).outText.length := by
+  intro evs
+  induction evs with
+  | nil =>
+    intro st hinv _ _ _ _ n s _ hc
+    unfold run at hc
+    split at hc
+    · simp at hc
+    · rw [hinv.cause] at hc; cases hc
+  | cons ev rest ih =>
+    intro st hinv ⟨fl, hgen, hfl, hcnt⟩ hgne hsne hvp n s h hc
+    unfold cacheLenRun at h
+    unfold run at hc ⊢
+    split at h
+    · rename_i hl; simp only [hl, and_self, if_true] at hc; simp at hc
+    · rename_i hl
+      simp only [hl, if_false] at hc ⊢
+      cases ev with
+      | eos => simp at hc
+      | piece p =>
+        simp only at h hc ⊢
+        have hpne : p ≠ [] := hsne p (List.mem_cons_self ..)
+        have hvp1 : ValidPrefix (st.genText ++ p) := by
+          have : st.genText ++ scriptText (Ev.piece p :: rest) = (st.genText ++ p) ++ scriptText rest := by
+            simp [scriptText, scriptPieces, List.append_assoc]
+          rw [this] at hvp; exact hvp.left
+        obtain ⟨hpost, hcontInv⟩ := step_main pinned hok p hinv hvp1
+        rcases stepPiece_cases pinned stops st p with ⟨s', hs, hst⟩ | ⟨_, _, hst⟩ | ⟨_, _, _, hst⟩
+        · -- the stop step
+          have hcause : (stepPiece pinned stops st p).cause = some (.stopString s') := by rw [hst]; simp
+          have hd : (stepPiece pinned stops st p).done.isSome = true := by rw [hst]; simp
+          rw [hcause] at h
+          simp only [hd, if_true] at hc ⊢
+          rw [hcause] at hc
+          injection hc with hc; injection hc with hc; subst hc
+          injection h with h
+          have hP := hpost hd
+          unfold Post at hP
+          rw [hcause] at hP
+          obtain ⟨_, hsmem, _, ⟨idxg, hidxg, houtg, _⟩, _, _⟩ := hP
+          -- the pending pieces at the stop
+          have hgen' : (stepPiece pinned stops st p).gen = fl ++ (st.pending ++ [p]) := by
+            rw [hst, finish_gen]; show st.gen ++ [p] = _; rw [hgen, List.append_assoc]
+          obtain ⟨_, hocc⟩ := findStopV_some hs
+          obtain ⟨idx, hidx⟩ := hocc.indexOf
+          have hidx' : indexOf s' (st.pending ++ [p]).flatten = some idx := hidx
+          obtain ⟨⟨a', b', hab', ha'len⟩, hmin'⟩ := indexOf_spec s' _ idx hidx'
+          obtain ⟨⟨a, b, hab, halen⟩, hming⟩ := indexOf_spec s' _ idxg hidxg
+          have hgt : (stepPiece pinned stops st p).genText = fl.flatten ++ (st.pending ++ [p]).flatten := by
+            show (stepPiece pinned stops st p).gen.flatten = _
+            rw [hgen', List.flatten_append]
+          -- idxg = |fl| + idx
+          have hle : idxg ≤ fl.flatten.length + idx := by
+            have := hming (fl.flatten ++ a') b' (by rw [hgt, hab']; simp [List.append_assoc])
+            simpa [ha'len] using this
+          have hge : fl.flatten.length + idx ≤ idxg := by
+            have hsplit := hinv.split
+            have hno : ¬ Occurs s' (st.outText ++ st.pending.flatten) := by rw [← hsplit]; exact hinv.noOcc s' hsmem
+            have hheld : Held stops (st.outText ++ st.pending.flatten) st.pending.flatten.length := by
+              rw [← hsplit]; exact hinv.held
+            have hh : (st.outText ++ st.pending.flatten) ++ p = a ++ s' ++ b := by
+              rw [← hab, hgt, hfl]; simp [List.append_assoc]
+            obtain ⟨z, hz1, hz2⟩ := occurrence_in_pending hsmem hno hheld hh
+            have hz2' : (st.pending ++ [p]).flatten = z ++ s' ++ b := by simpa using hz2
+            have := hmin' z b hz2'
+            rw [← halen, hz1, List.length_append, ← hfl]
+            omega
+          have hidxeq : idxg = fl.flatten.length + idx := by omega
+          have houtlen : (stepPiece pinned stops st p).outText.length = fl.flatten.length + idx := by
+            rw [houtg, List.length_take, ← hidxeq]
+            have := congrArg List.length hab
+            simp only [List.length_append] at this
+            omega
+          -- the arithmetic of the code
+          have hlen : (st.pending ++ [p]).length ≤ (promptLen + st.numPredicted) + 1 := by
+            simp only [List.length_append, List.length_cons, List.length_nil]; omega
+          obtain ⟨_, _, hck, _, _⟩ := cacheKeep_spec (st.pending ++ [p]) s' (promptLen + st.numPredicted) idx
+            (hok s' hsmem).1 hidx' hlen
+          have hpne' : ∀ q ∈ st.pending ++ [p], q ≠ [] := by
+            intro q hq
+            rcases List.mem_append.mp hq with hq | hq
+            · exact hgne q (by rw [hgen]; exact List.mem_append_right _ hq)
+            · simp at hq; subst hq; exact hpne
+          have htr : truncateStop (st.pending ++ [p]) s' =
+              splitBack ((st.pending ++ [p]).map List.length) ((st.pending ++ [p]).flatten.take idx) := by
+            unfold truncateStop; simp only [hidx']
+          have hw := (splitBack_whole (st.pending ++ [p]) ((st.pending ++ [p]).flatten.take idx) hpne').2
+          rw [← htr] at hw
+          have htl : ((st.pending ++ [p]).flatten.take idx).length = idx := by
+            rw [List.length_take]
+            have := congrArg List.length hab'
+            simp only [List.length_append] at this
+            omega
+          rw [htl] at hw
+          rw [hgen', houtlen, wholeTokens_append, ← hw, ← h, hck]
+          simp only [List.length_append, List.length_cons, List.length_nil] at *
+          push_cast
+          omega
+        · -- held back: the run goes on
+          have hcause : (stepPiece pinned stops st p).cause = none := by rw [hst]; exact hinv.cause
+          have hd : (stepPiece pinned stops st p).done = none := by rw [hst]; exact hinv.done
+          have hd' : (stepPiece pinned stops st p).done.isSome = false := by rw [hd]; rfl
+          rw [hcause] at h
+          simp only [hd, Option.isSome_none, Bool.false_eq_true, if_false] at h hc ⊢
+          have hgt : (stepPiece pinned stops st p).genText = st.genText ++ p := stepPiece_genText pinned stops st p
+          refine ih _ (hcontInv hd') ⟨fl, ?_, ?_, ?_⟩ ?_ (fun q hq => hsne q (List.mem_cons_of_mem _ hq)) ?_ n s h hc
+          · rw [hst]; show st.gen ++ [p] = fl ++ (st.pending ++ [p]); rw [hgen, List.append_assoc]
+          · rw [hst]; exact hfl
+          · rw [hst]; show fl.length + (st.pending ++ [p]).length = st.numPredicted + 1
+            simp only [List.length_append, List.length_cons, List.length_nil]; omega
+          · rw [hst]; intro q hq
+            have hq' : q ∈ st.gen ++ [p] := hq
+            rcases List.mem_append.mp hq' with hq' | hq'
+            · exact hgne q hq'
+            · simp at hq'; subst hq'; exact hpne
+          · rw [hgt]
+            have : st.genText ++ scriptText (Ev.piece p :: rest) = (st.genText ++ p) ++ scriptText rest := by
+              simp [scriptText, scriptPieces, List.append_assoc]
+            rw [← this]; exact hvp
+        · -- flushed: the run goes on
+          have hcause : (stepPiece pinned stops st p).cause = none := by rw [hst, flush_cause]; exact hinv.cause
+          have hd : (stepPiece pinned stops st p).done = none := by rw [hst, flush_done]; exact hinv.done
+          have hd' : (stepPiece pinned stops st p).done.isSome = false := by rw [hd]; rfl
+          rw [hcause] at h
+          simp only [hd, Option.isSome_none, Bool.false_eq_true, if_false] at h hc ⊢
+          have hgt : (stepPiece pinned stops st p).genText = st.genText ++ p := stepPiece_genText pinned stops st p
+          have hinv' := hcontInv hd'
+          have hgen2 : (stepPiece pinned stops st p).gen = fl ++ (st.pending ++ [p]) := by
+            rw [hst, flush_gen]; show st.gen ++ [p] = _; rw [hgen, List.append_assoc]
+          have hpend2 : (stepPiece pinned stops st p).pending = [] := by rw [hst, flush_pending]
+          refine ih _ hinv' ⟨fl ++ (st.pending ++ [p]), ?_, ?_, ?_⟩ ?_ (fun q hq => hsne q (List.mem_cons_of_mem _ hq)) ?_ n s h hc
+          · rw [hgen2, hpend2, List.append_nil]
+          · have := hinv'.split
+            rw [hpend2] at this
+            simp only [List.flatten_nil, List.append_nil] at this
+            rw [← this]
+            show _ = (stepPiece pinned stops st p).gen.flatten
+            rw [hgen2]
+          · rw [hpend2, hst, flush_np]
+            show (fl ++ (st.pending ++ [p])).length + 0 = st.numPredicted + 1
+            simp only [List.length_append, List.length_cons, List.length_nil]; omega
+          · rw [hgen2]; intro q hq
+            rcases List.mem_append.mp hq with hq | hq
+            · exact hgne q (by rw [hgen]; exact List.mem_append_left _ hq)
+            · rcases List.mem_append.mp hq with hq | hq
+              · exact hgne q (by rw [hgen]; exact List.mem_append_right _ hq)
+              · simp at hq; subst hq; exact hpne
+          · rw [hgt]
+            have : st.genText ++ scriptText (Ev.piece p :: rest) = (st.genText ++ p) ++ scriptText rest := by
+              simp [scriptText, scriptPieces, List.append_assoc]
+            rw [← this]; exact hvp
+
+/-- `cache_is_streamed_tokens` from the start of a request (`run … init`) -/
+theorem cache_at_stop_is_streamed_tokens (pinned : Bool) (limit : Int) (stops : List Bytes) (promptLen : Nat)
+    (hok : StopsOk stops) (evs : List Ev) (hne : ∀ q, Ev.piece q ∈ evs → q ≠ [])
+    (hvp : ValidPrefix (scriptText evs)) (n : Int) (s : Bytes)
+    (h : cacheLenRun pinned limit stops promptLen init evs = some n)
+    (hc : (run pinned limit stops init evs).cause = some (.stopString s)) :
+    n = (promptLen : Int) + wholeTokens (run pinned limit stops init evs).gen
+          (run pinned limit stops init evs).outText.length :=
+  cache_is_streamed_tokens pinned limit stops promptLen hok evs init (inv_init stops hok)
+    ⟨[], rfl, rfl, rfl⟩ (by intro q hq; cases hq) hne (by simpa [init, St.genText] using hvp) n s h hc
+
+/-- non-vacuity: prompt of 3 inputs, pieces `"a" "b<" "|x"`, stop `"<|"`: the streamed text is `"ab"` (2 bytes), one token
+    (`a`) lies entirely within it, the cache holds 3 + 1 inputs -/
+example :
+    let evs := [Ev.piece [0x61], Ev.piece [0x62, 0x3c], Ev.piece [0x7c, 0x78]]
+    let f := run false 0 [[0x3c, 0x7c]] init evs
+    f.cause = some (.stopString [0x3c, 0x7c]) ∧ f.outText = [0x61, 0x62] ∧ wholeTokens f.gen f.outText.length = 1 ∧
+    cacheLenRun false 0 [[0x3c, 0x7c]] 3 init evs = some 4 ∧ validUtf8 (scriptText evs) = true := by decide
+
 /-! ### 5d. one level up: the `completion` HTTP handler and the client -/
 
 /-- **What the client receives.**  For the handler's lines of any finished or cancelled run: the
